@@ -490,6 +490,13 @@ func TestVerifC18Keychain(t *testing.T) {
 		k.query("1.2.3.4:5000", app1.canon)
 		k.remove(app1, true)
 		k.query("reg.example.com", app1.canon)
+		// look-alike hosts: the address host extends / is extended by the contacted host
+		k.pull(app1, verifC18WithAddr(verifC18UserPw("s", "s"), "https://reg.example.com.evil.example", "reg.example.com.evil.example"), true)
+		k.query("reg.example.com", app1.canon)
+		k.pull(app2, verifC18WithAddr(verifC18UserPw("t", "t"), "https://reg.example", "reg.example"), true)
+		k.query("reg.example.com", app2.canon)
+		k.pull(app2, verifC18WithAddr(verifC18UserPw("v", "v"), "https://REG.EXAMPLE.COM", "REG.EXAMPLE.COM"), true)
+		k.query("reg.example.com", app2.canon)
 		k.pull(verifC18Img{raw: "foo/Bar"}, verifC18UserPw("bad", "bad"), true)
 		k.remove(verifC18Img{raw: ""}, true)
 		k.close()
